@@ -57,7 +57,7 @@ def gen_direct(rng):
         pts = {Fraction(int(v)) for v in pts}
     m = rng.choice(METHODS) if rng.random() < 0.92 else rng.choice(["quadratic", "nearest", "Linear", ""])
     return {"kind": "direct", "x": [str(v) for v in x], "y": [str(v) for v in y], "new": [str(v) for v in sorted(pts)],
-            "method": m, "affine": affine}
+            "method": m, "affine": affine, "container": rng.choice(["array", "array", "array", "labels"])}
 
 
 def gen_counts(rng):
@@ -161,6 +161,8 @@ def run_impl(c):
             if c.get("xdtype"):
                 xa = S.arr([int(v) for v in x], dtype=c["xdtype"])
                 na = S.arr([int(v) for v in new], dtype=c["xdtype"])
+            if c.get("container") == "labels":
+                ya = S.LabelSeries(ya)                 # a column of a sorted data frame
             r = interpolate(xa, ya, na, method=c["method"])
             if r is None:
                 return {"none": True}
